@@ -456,7 +456,8 @@ PROPS["C01"] = {
              "optional first-rendezvous faults (answer lost/delayed, first relay connection blackholed, the carrying proxy SIGSTOPped before its first "
              "downstream message); in half of the cases the client and server are the unmodified binaries too (SOCKS5 port to ORPort), in a third a "
              "re-fragmenting WebSocket reverse proxy sits in front of the server; one case in ten is drawn from the scenario family 'downlink stall' "
-             "(multi-MiB download, all binaries, client stopped for 7-12 s); a fresh proxy is always available in the end. Same byte-exact "
+             "(multi-MiB download, all binaries, client stopped for 7-12 s), one in ten from 'silent proxy' (the relay path of the carrying proxy "
+             "blackholed once the bridge has verified a generated number of upstream bytes); faults can be byte-triggered instead of timed; a fresh proxy is always available in the end. Same byte-exact "
              "oracle; a whole-system stall (150 s without progress) is re-run alone with 300 s, and reported only if it stalls again while a "
              "fault-free canary session completes (otherwise: inconclusive, environment). Non-trivial = at least "
              "one fault and >= 300 KB of payload."),
